@@ -191,3 +191,100 @@ theorem ancestors_spec {c : Dag} {P : Paths} (g : Good c P) (n : NodeId) : AncSp
 
 end Dag
 end Graphiq
+
+/-! ## the register prologue does not create paths between existing nodes -/
+namespace Graphiq
+namespace Dag
+open Relation
+
+/-- `c1` extends `c` by isolated material: old edges stay, every new edge starts at a new node, old nodes stay -/
+structure EdgeExt (c c1 : Dag) : Prop where
+  keep : ∀ e ∈ c.edges, e ∈ c1.edges
+  fresh : ∀ e ∈ c1.edges, e ∈ c.edges ∨ e.src ∉ c.nodeIds
+  nodes : ∀ n ∈ c.nodeIds, n ∈ c1.nodeIds
+
+theorem EdgeExt.refl (c : Dag) : EdgeExt c c := ⟨fun _ h => h, fun _ h => Or.inl h, fun _ h => h⟩
+
+theorem EdgeExt.trans {c c1 c2 : Dag} (h1 : EdgeExt c c1) (h2 : EdgeExt c1 c2) : EdgeExt c c2 := by
+  refine ⟨fun e he => h2.keep e (h1.keep e he), ?_, fun n hn => h2.nodes n (h1.nodes n hn)⟩
+  intro e he
+  rcases h2.fresh e he with h | h
+  · exact h1.fresh e h
+  · exact Or.inr (fun hm => h (h1.nodes _ hm))
+
+theorem withNewReg_ext {c : Dag} {P : Paths} (h : Inv c P) {r : Reg} (hr : r.idx = c.regs r.ty) : EdgeExt c (c.withNewReg r) := by
+  have hnl : ¬ c.live r := by simp [live, hr]
+  have hinp : NodeId.inp r ∉ c.nodeIds := fun hm => hnl ((h.inp_iff r).mp hm)
+  have hedges : (c.withNewReg r).edges = c.edges ++ [⟨.inp r, .out r, r⟩] := rfl
+  have hids : (c.withNewReg r).nodeIds = c.nodeIds ++ [.inp r, .out r] := by simp [nodeIds, withNewReg]
+  refine ⟨fun e he => by rw [hedges]; exact List.mem_append_left _ he, ?_, fun n hn => by rw [hids]; exact List.mem_append_left _ hn⟩
+  intro e he
+  rw [hedges] at he
+  rcases List.mem_append.mp he with he | he
+  · exact Or.inl he
+  · simp at he; subst he; exact Or.inr hinp
+
+theorem addRegIfAbsent_ext {c : Dag} {P : Paths} (g : Good c P) (r : Reg) : EdgeExt c (c.addRegIfAbsent r).1 := by
+  by_cases h1 : c.regs r.ty < r.idx
+  · rw [addRegIfAbsent_gap h1]; exact EdgeExt.refl c
+  · by_cases h2 : r.idx = c.regs r.ty
+    · rw [addRegIfAbsent_new g.inv h2]; exact withNewReg_ext g.inv h2
+    · have hl : c.live r := by unfold live; omega
+      rw [addRegIfAbsent_old g.inv hl]; exact EdgeExt.refl c
+
+theorem addRegs_ext {c : Dag} {P : Paths} (g : Good c P) (rs : List Reg) : EdgeExt c (c.addRegs rs).1 := by
+  induction rs generalizing c P with
+  | nil => exact EdgeExt.refl c
+  | cons r rest ih =>
+    have h1 := addRegIfAbsent_ext g r
+    obtain ⟨P1, g1, _⟩ := addRegIfAbsent_good g r
+    unfold addRegs
+    cases hres : c.addRegIfAbsent r with
+    | mk c1 err =>
+      rw [hres] at h1 g1
+      simp only at h1 g1
+      cases err with
+      | some e => exact h1
+      | none => exact h1.trans (ih g1)
+
+theorem ensureRegs_ext {c : Dag} {P : Paths} (g : Good c P) (op : Op) : EdgeExt c (c.ensureRegs op).1 := by
+  have h1 := addRegs_ext g (op.cregs.map (Reg.mk .c))
+  obtain ⟨P1, g1, _⟩ := addRegs_good g (op.cregs.map (Reg.mk .c))
+  unfold ensureRegs
+  cases hres : c.addRegs (op.cregs.map (Reg.mk .c)) with
+  | mk c1 err =>
+    rw [hres] at h1 g1
+    simp only at h1 g1
+    cases err with
+    | some e => exact h1
+    | none =>
+      simp only
+      by_cases hq : op.qregs.isEmpty = true
+      · simp only [hq, if_true]; exact h1
+      · have hq' : op.qregs.isEmpty = false := by simpa using hq
+        simp only [hq', Bool.false_eq_true, if_false]
+        exact h1.trans (addRegs_ext g1 _)
+
+/-- a path of the extended circuit that starts at an old node is a path of the old circuit -/
+theorem EdgeExt.reach {c c1 : Dag} {P : Paths} (hext : EdgeExt c c1) (h : Inv c P) {a b : NodeId} (ha : a ∈ c.nodeIds)
+    (hr : ReflTransGen c1.E a b) : ReflTransGen c.E a b ∧ b ∈ c.nodeIds := by
+  induction hr with
+  | refl => exact ⟨ReflTransGen.refl, ha⟩
+  | tail _ hxy ih =>
+    obtain ⟨e, he, hs, hd⟩ := hxy
+    rcases hext.fresh e he with he' | hfr
+    · have hE : c.E _ _ := ⟨e, he', hs, hd⟩
+      exact ⟨ih.1.tail hE, (E_nodes h hE).2⟩
+    · exact absurd (hs ▸ ih.2) hfr
+
+/-- **well-formedness of `insert_at` edges can be checked before the register prologue** -/
+theorem InsertOK.of_pre {c : Dag} {P : Paths} (g : Good c P) {op : Op} {es : List Edge} (hok : InsertOK c op es) :
+    InsertOK (c.ensureRegs op).1 op es := by
+  have hext := ensureRegs_ext g op
+  refine ⟨fun e he => hext.keep e (hok.mem e he), hok.keys, ?_⟩
+  intro e1 he1 e2 he2 hne hr
+  have hdst : e1.dst ∈ c.nodeIds := (g.inv.edge_nodes (hok.mem e1 he1)).2
+  exact hok.compat e1 he1 e2 he2 hne (hext.reach g.inv hdst hr).1
+
+end Dag
+end Graphiq
